@@ -56,9 +56,29 @@ let code_of_error (e : error) : string =
 let opt_error_of_code s = if s = "-" then None else Some (error_of_code s)
 let code_of_opt_error = function None -> "-" | Some e -> code_of_error e
 
+(* PFAIL lines are collected PER CLAUSE (8 each) and printed at the end ROUND-ROBIN over the clauses: the
+   report keeps only the first few violations, and a change that breaks many lines of one kind (e.g. every
+   SF script when fileConn.Read drops its byte count) must not hide the clauses checked later in the
+   stream (the FC/UD/DC glue lines) - each broken clause shows its own concrete input among the first *)
+let clause_order : string list ref = ref []
+let clause_lines : (string, string list) Hashtbl.t = Hashtbl.create 16
+
 let pfail line clause expected =
   incr n_mismatch;
-  if !n_mismatch <= 50 then Printf.printf "PFAIL %s || clause=%s expected=%s\n" line clause expected
+  let l = try Hashtbl.find clause_lines clause with Not_found -> (clause_order := !clause_order @ [ clause ]; []) in
+  if List.length l < 8 then
+    Hashtbl.replace clause_lines clause (l @ [ Printf.sprintf "PFAIL %s || clause=%s expected=%s" line clause expected ])
+
+let flush_pfail () =
+  (* the scanner clauses carry indices in their names (frame-0-of-1, frame-1-of-2, ...): the glue clauses
+     (three fixed names) go first in every round so that they are not crowded out *)
+  let glue, other = List.partition (fun c -> String.length c >= 5 && String.sub c 0 5 = "glue-") !clause_order in
+  clause_order := glue @ other;
+  for i = 0 to 7 do
+    List.iter
+      (fun c -> match List.nth_opt (Hashtbl.find clause_lines c) i with Some t -> print_endline t | None -> ())
+      !clause_order
+  done
 
 (* DISAGREE lines have their own print budget: thousands of them (e.g. every T line with a length
    9..255 when decodeFrame changes) must not use up the budget of the MISMATCH / PFAIL lines that carry
@@ -793,8 +813,50 @@ let handle_dial line scen ck connk perr rest =
   note_case (Printf.sprintf "DC-scenario%s-conn%s" scen connk) line;
   if not (List.mem got expected) then pfail line "glue-dialctx-returns-or-closes-once" (String.concat " or " expected)
 
+(* ---------------------------------------------------------------- the emulated bus (Emulator.v) *)
+let handle_emulator line toks =
+  match split_bars [] [] toks with
+  | [ ops_t; obs ] ->
+      let bad_err = ref None in
+      let ops =
+        lmap
+          (fun t ->
+            let arg = tail_from t 1 in
+            match t.[0] with
+            | 'r' | 'd' -> EConnect (z_of_int (int_of_string arg))
+            | 'x' -> EDisconnect (z_of_int (int_of_string arg))
+            | 't' -> (
+                match String.split_on_char ':' arg with
+                | [ who; fr; err ] ->
+                    if who = "-" && err = "1" then bad_err := Some t;
+                    ETransmit ((if who = "-" then None else Some (z_of_int (int_of_string who))), frame_of_str fr)
+                | _ -> failwith ("bad transmit " ^ t))
+            | _ -> failwith ("bad emulator op " ^ t))
+          ops_t
+      in
+      let b = emu_run [] ops in
+      let ntx = llen (List.filter (fun t -> t.[0] = 't') ops_t) in
+      note_case ~nontrivial:(ntx > 0) (Printf.sprintf "E-%dtransmits" (min ntx 6)) line;
+      (match !bad_err with
+       | Some t -> pfail line "emulator-transmit-succeeds" ("no error for " ^ t)
+       | None -> ());
+      List.iter
+        (fun o ->
+          let id, got = split_first '=' o in
+          let inbox = inbox_of (z_of_int (int_of_string id)) b in
+          let want =
+            lmap (fun (_, d) -> match receive16 d with Some ((f, _), _) -> frame_str f | None -> "undecodable") inbox
+          in
+          let want_s = if want = [] then "-" else String.concat "," want in
+          if want_s <> got then
+            pfail line "emulator-delivers-each-frame-once-to-every-connected-endpoint"
+              (Printf.sprintf "endpoint %s: %s" id want_s))
+        obs
+  | _ -> failwith ("bad E line: " ^ clip line)
+
 let handle line =
   match split_ws line with
+  | "E" :: toks -> handle_emulator line toks
   | "FC" :: toks -> handle_fileconn line toks
   | "UD" :: kind :: toks -> handle_udp line kind toks
   | "DC" :: scen :: ck :: connk :: perr :: "|" :: rest -> handle_dial line scen ck connk perr rest
@@ -822,6 +884,7 @@ let () =
        if l <> "" then handle l
      done
    with End_of_file -> ());
+  flush_pfail ();
   Hashtbl.iter (fun k v -> Hashtbl.replace kinds k v) read_kinds;
   n_mismatch := !n_mismatch + !n_disagree;
   print_stats ()
